@@ -14,7 +14,8 @@ CHECK = {'rule': 'rapid-generated task programs driven directly at pipservices.R
                  'submissions may be refused (scope done): both are accepted, only a task that reports no error must have run its whole body',
                  'what a parent task does after one of its nested tasks failed is not fixed by the statement and accepted both ways',
                  'names of refused submissions are never reused and never waited for by the generator; duplicate task names are not generated'],
- 'essential_labels': {'all': ['mode:shared',
+ 'essential_labels': {'all': ['nosandbox:later-submission-waits-for-it',
+                              'mode:shared',
                               'mode:isolated',
                               'bodies-overlap',
                               'wait-edge',
@@ -50,13 +51,16 @@ CHECK = {'rule': 'rapid-generated task programs driven directly at pipservices.R
                               'waitlist:namespaced',
                               'waitlist:blanks']},
  'tiers': {'quick': [{'test': '^TestProp$', 'checks': 1200, 'shards': 8, 'timeout': 240, 'shrinktime': '60s'},
-                     {'test': '^TestPropWaitList$', 'checks': 20000, 'shards': 1, 'timeout': 120}],
+                     {'test': '^TestPropWaitList$', 'checks': 20000, 'shards': 1, 'timeout': 120},
+                     {'test': '^TestPropNoSandbox$', 'checks': 250, 'shards': 2, 'timeout': 240, 'seed_offset': 700}],
            'thorough': [{'test': '^TestProp$', 'checks': 16000, 'shards': 16, 'timeout': 3000, 'shrinktime': '120s'},
-                        {'test': '^TestPropWaitList$', 'checks': 200000, 'shards': 2, 'timeout': 600}]}}
+                        {'test': '^TestPropWaitList$', 'checks': 200000, 'shards': 2, 'timeout': 600},
+                        {'test': '^TestPropNoSandbox$', 'checks': 6000, 'shards': 4, 'timeout': 3000, 'seed_offset': 700}]}}
 
 TEXT = {'technique': 'property-based testing of concurrent task programs (rapid): generated task graphs with wait lists, failing commands, nested and '
               'invalid submissions are driven at the pipeline runner of a bootstrapped app; validity predicates over the event log of harness probe '
-              'commands, task states and TasksManager.Wait under a watchdog',
+              'commands, task states and TasksManager.Wait under a watchdog; submissions whose sandbox cannot be provided (refused or accepted-and-failed, '
+              'judged from the observed decision) with later submissions waiting for them',
  'level_text': 'Exploration: thousands of generated task programs whose tasks really overlap (driven at Runner.Run, not through the serialising '
                'terminal), in a shared scope and in isolated-context children; the interleaving of the tasks is sampled by the Go scheduler under '
                'generated command durations, submission pauses and GOMAXPROCS 1/2/4/8, not enumerated.',
